@@ -2,6 +2,7 @@
 from __future__ import annotations
 
 import ast
+from fractions import Fraction
 from typing import Any
 
 from sa import ordenum
@@ -112,6 +113,7 @@ def _decoder(ctx: Ctx) -> dict[str, Any] | None:
     g = Poly.var(game_loop.target.id) if isinstance(
         game_loop.target, ast.Name) else None
     ctx.need(g is not None, "map_games: game variable")
+    _all_games(ctx, fi, ev, pre_env, game_loop, xp)
     genv = pre_env.copy()
     genv.vars[game_loop.target.id] = g
     day_loop = None
@@ -339,6 +341,111 @@ def _decoder(ctx: Ctx) -> dict[str, Any] | None:
            "placement protocol broken: " + detail,
            construct="paired placement on first free day")
     return info if ok_dec else None
+
+
+def _poly_at(p: Poly, val: dict[str, int]) -> Fraction | None:
+    """Value of a polynomial over `days` / `n` (with //, %, min, max)."""
+    from sa.symterm import Poly as _P
+    tot = Fraction(0)
+    for mono, c in p.terms.items():
+        t = Fraction(c)
+        for a, e in mono:
+            v: Fraction | None
+            if a[0] == "var" and str(a[1]) in val:
+                v = Fraction(val[str(a[1])])
+            elif a[0] == "app" and a[1] in ("floordiv", "mod", "min", "max"):
+                vs = [_poly_at(q, val) if isinstance(q, _P) else None
+                      for q in a[2]]
+                if any(x is None for x in vs) or (
+                        a[1] in ("floordiv", "mod") and vs[1] == 0):
+                    return None
+                if a[1] == "floordiv":
+                    v = Fraction(vs[0] // vs[1])      # type: ignore
+                elif a[1] == "mod":
+                    v = Fraction(vs[0] % vs[1])       # type: ignore
+                else:
+                    v = min(vs) if a[1] == "min" else max(vs)  # type: ignore
+            else:
+                return None
+            t *= v ** e
+        tot += t
+    return tot
+
+
+def _all_games(ctx: Ctx, fi: FuncInfo, ev: Any, pre_env: Env,
+               game_loop: ast.For, xp: str) -> None:
+    """The game loop visits every element of the permutation, in order.
+
+    A slice `x[a:b]` is compared with the whole of x for the shapes the
+    search space produces: n teams, r rounds, days = (n-1)*r rows and
+    n(n-1)/2*r games (polynomial evaluation, not execution)."""
+    from sa.srcmodel import inline_locals
+    it = inline_locals(fi.node, game_loop.iter)
+    ok, why = False, ""
+    definite = True
+
+    def is_x(e: ast.expr) -> bool:
+        return isinstance(e, ast.Name) and e.id == xp
+    if is_x(it) or (isinstance(it, ast.Call) and len(it.args) == 1 and is_x(
+            it.args[0]) and ast.unparse(it.func) in (
+            "iter", "list", "tuple", "np.nditer", "np.asarray")) or (
+            isinstance(it, ast.Call) and isinstance(it.func, ast.Attribute)
+            and is_x(it.func.value) and it.func.attr in ("tolist", "flat")):
+        ok, why = True, "the loop runs over the whole permutation"
+    elif isinstance(it, ast.Subscript) and is_x(it.value) and isinstance(
+            it.slice, ast.Slice):
+        sl = it.slice
+        bad: list[str] = []
+        unknown = False
+        for part, nm in ((sl.lower, "start"), (sl.upper, "stop"),
+                         (sl.step, "step")):
+            if part is None:
+                continue
+            if isinstance(part, ast.Call) and ast.unparse(part) == \
+                    f"len({xp})" and nm == "stop":
+                continue
+            try:
+                pv = ev.num(pre_env, part)
+            except Unsupported:
+                unknown = True
+                continue
+            for n_ in range(2, 10):
+                for r_ in range(1, 5):
+                    days = (n_ - 1) * r_
+                    games = n_ * (n_ - 1) // 2 * r_
+                    v = _poly_at(pv, {"days": days, "n": n_})
+                    if v is None:
+                        unknown = True
+                        break
+                    if (nm == "start" and v != 0) or (
+                            nm == "step" and v != 1) or (
+                            nm == "stop" and (v < games if v >= 0
+                                              else True)):
+                        bad.append(
+                            f"for {n_} teams and {r_} round(s) the plan "
+                            f"has {days} days and the permutation {games} "
+                            f"games, but the {nm} of `{ast.unparse(it)}` "
+                            f"is {v}: not every game is looked at")
+                        break
+                if bad or unknown:
+                    break
+        if bad:
+            ok, why = False, bad[0]
+        elif unknown or sl.upper is not None and not (
+                isinstance(sl.upper, ast.Call)
+                and ast.unparse(sl.upper) == f"len({xp})"):
+            ok, definite = False, False
+            why = (f"the range `{ast.unparse(it)}` of the game loop is not "
+                   "recognised as the whole permutation")
+        else:
+            ok, why = True, "the loop runs over the whole permutation"
+    else:
+        ok, definite = False, False
+        why = (f"the iterable `{ast.unparse(it)[:80]}` of the game loop is "
+               "not recognised as the whole permutation")
+    del definite
+    ctx.ob("D15.1", fi, game_loop, ok, why,
+           construct="every game is visited")
 
 
 def _blocks(node: ast.AST) -> list[list[ast.stmt]]:
